@@ -483,7 +483,10 @@ static double SANDBOX_S = 0.3;
 static void on_prof_child(int) {
   if (PPL::abandon_expensive_computations != 0) { signal(SIGPROF, SIG_DFL); raise(SIGPROF); return; }
   PPL::abandon_expensive_computations = &ABANDONED;
-  struct itimerval tv; memset(&tv, 0, sizeof tv); tv.it_value.tv_usec = 200000; setitimer(ITIMER_PROF, &tv, 0);
+  // a generous window: the non-terminating loops grow their coefficients, so one iteration (one cancellation point)
+  // can take longer than a fraction of a second on a loaded machine; a short window made the location, and with it the
+  // trigger of the known compatibility_check hang, depend on timing
+  struct itimerval tv; memset(&tv, 0, sizeof tv); tv.it_value.tv_sec = 4; setitimer(ITIMER_PROF, &tv, 0);
 }
 static int sandbox(const std::function<void()>& f, double cpu_s) {
   fflush(stdout); fflush(stderr);
